@@ -144,6 +144,21 @@ def run_property(pid, tier, seed=0, only_rule=None, quiet=False, repo=None, writ
                 print("  [info] %s %s %s: %s" % (o.rule, o.key, o.where, short(o.msg, 200)))
         for l in lines:
             print(l)
+    liveness = []
+    if tier == "thorough" and write_evidence and repo is None and not only_rule:
+        # rule liveness: every mutant recorded for this property (reverted repairs, independent seeded changes)
+        # must still be reported by the rules; analysed on scratch copies, never executed
+        import selftest
+        for spec in selftest.load_specs():
+            if spec.get("property") != pid or spec.get("missed"):
+                continue
+            try:
+                ok, msg, keys = selftest.run_one(spec, "quick")
+            except Exception as e:
+                ok, msg, keys = False, "error: %r" % e, []
+            liveness.append({"mutant": spec["name"], "re_detected": ok, "reported": keys[:6]})
+            if not quiet:
+                print("%s mutant %-48s %s" % ("selftest:" if ok else "SELFTEST-MISS:", spec["name"], "; ".join(keys)[:160]))
     wall = time.time() - t0
     if write_evidence:
         samples = []
@@ -178,6 +193,7 @@ def run_property(pid, tier, seed=0, only_rule=None, quiet=False, repo=None, writ
                 "facts_sha": facts_sha,
                 "known_findings_hit": [o.key for o, _ in known_hit],
                 "anchor_failures": anchor_failures,
+                "mutants_re_detected": liveness,
                 "exhaustive": True,
             },
             "assumptions": getattr(mod, "ASSUMPTIONS", []),
